@@ -462,12 +462,31 @@ for _fl in ("gcc", "asan"):
     tl_bins(_fl)
 
 
+NTLT = 16
+
+
+def tl_bins_thorough():
+    out = []
+    for i in range(NTLT):
+        name = "tablelab_ctxall_%02d" % i
+        if name not in BINS:
+            B(name, ["checks/tablelab.cpp", "harness/support.cpp"], "gcc", defs=["SHARD=%d" % i, "NSHARDS=%d" % NTLT, "CTX_ALL"],
+              ldflags=WRAP, gen=True)
+        out.append(BINS[name])
+    return out
+
+
+tl_bins_thorough()
+
+
 def tl_jobs(prop):
     def jobs(tier):
-        js = [job(b, "--prop", prop, "--tier", tier) for b in tl_bins("gcc")]
         if tier == "thorough":
-            js += [job(b, "--prop", prop, "--tier", tier) for b in tl_bins("asan")]
-        return js
+            # every version in every wrapping context (C07), plus the quick configuration under ASan/UBSan
+            js = [job(b, "--prop", prop, "--tier", tier) for b in (tl_bins_thorough() if prop == "C07" else tl_bins("gcc"))]
+            js += [job(b, "--prop", prop, "--tier", "quick" if prop == "C08" else tier) for b in tl_bins("asan")]
+            return js
+        return [job(b, "--prop", prop, "--tier", tier) for b in tl_bins("gcc")]
     return jobs
 
 
@@ -490,7 +509,7 @@ CHECKS["C07"] = dict(
     rule="states = table versions, transitions = evolution edges, traces_validated_against_impl = (writer, reader, assignment, "
          "context, reader rig) executions compared with the evolution model",
     assumptions=R_ASSUME,
-    bounds=dict(quick="pool 3 (226 versions), all pairs, 4 readers, contexts on every 11th version", thorough="same + ASan/UBSan build"),
+    bounds=dict(quick="pool 3 (226 versions), all pairs, 4 readers, contexts on every 11th version", thorough="all pairs with EVERY version in all four wrapping contexts (225 x 225 x 4 contexts) + the quick configuration under ASan/UBSan"),
     floor=dict(traces_validated_against_impl=dict(quick=2000000, thorough=4000000)),
 )
 
